@@ -269,6 +269,9 @@ Fixpoint eval (P : prog) (fuel : nat) (en : env) (e : expr) {struct fuel} : out 
     | EIsInst e1 k =>
         obind (eval P f en e1) (fun v =>
           if cref_defined P k then Val (VBool (isinst P v k)) else Exn NameError)
+    | EIsInstL e1 ks =>
+        obind (eval P f en e1) (fun v =>
+          if forallb (cref_defined P) ks then Val (VBool (existsb (isinst P v) ks)) else Exn NameError)
     | ENot e1 => obind (eval P f en e1) (fun v => Val (VBool (negb (truthy v))))
     | EAnd e1 e2 => obind (eval P f en e1) (fun v => if truthy v then eval P f en e2 else Val v)
     | EOr e1 e2 => obind (eval P f en e1) (fun v => if truthy v then Val v else eval P f en e2)
